@@ -13,6 +13,7 @@ from hypothesis import strategies as st
 
 from .. import gens, refs
 from ..runner import Sub
+from . import probes
 from .common import L, Checker, arr
 
 PROPERTY_ID = "C08"
@@ -22,6 +23,7 @@ RULE = ("every ordered pair of the 16 public classes plus {int, float, d-vector,
         "table DOC -> result class/ndarray/bool/float; pair not in DOC with operands of different classes must raise; a "
         "returned None/NotImplemented/identity/foreign-element object is a violation; stated pairs must return the stated "
         "class and the reference value. Non-trivial: different classes, or multi-valued, or subclass-related pair.")
+RULE = RULE + probes.RULE_TEXT + (probes.AUG_TEXT if PROPERTY_ID in probes.AUG_PROPS else "")
 ASSUMPTIONS = ["ndarray as LEFT operand is dispatched by NumPy and excluded", "spatial-vector * int is the inherited list repetition: judged as a list operation (own elements repeated), not as arithmetic", "same-class cells whose only meaning is the inherited list concatenation/repetition are reported (label same_class_undocumented), not judged",
                "documented pairs outside the statement (tier P3) may raise: recorded under label documented_but_raises, not a violation"]
 
@@ -272,6 +274,8 @@ def valid_elem(kind, a):
 
 
 def check_case(case):
+    if case.get("kind") in ("hist", "aug"):
+        return probes.run(case, PROPERTY_ID)
     op, lk, rk = case["op"], case["L"], case["R"]
     nl, nr = case["nl"], case["nr"]
     vals = case["vals"]
@@ -460,6 +464,8 @@ def s_cells():
 
 
 def classify(case):
+    if case.get("kind") in ("hist", "aug"):
+        return probes.classify(case)
     lk, rk, op = case["L"], case["R"], case["op"]
     spec = doc(op, lk, rk)
     lab = {"op:" + op: True, "tier:" + (spec[0] if spec else ("same_class_undocumented" if lk == rk else "P1")): True,
@@ -479,4 +485,5 @@ def subchecks(tier):
     return [
         Sub("cells", gen=gen_cells, shards=(8, 16)),
         Sub("values", strategy=s_cells(), n=(400, 20000), shards=(12, 16)),
+        *probes.subs(PROPERTY_ID),
     ]
